@@ -22,7 +22,9 @@ CONSTANTS Closed,
                    \* the implementation off, TLC must then find a counter-example (vacuity test of the
                    \* invariants, source of replay scenarios): "AnyDoneOrder", "CloseBeforeDrain",
                    \* "SpawnAllThenWait", "SendFirstRemoteOnly", "NoSkipCheck", "SinkOnlyIfDriver" (= F1), "NoDrain" (= F12), "NoWaitAll" (= F16),
-                   \* "StreamAtDone" (streaming IPs sent like ordinary ones, after the task), "NoFifoRemove"
+                   \* "StreamAtDone" (streaming IPs sent like ordinary ones, after the task), "NoFifoRemove",
+                   \* "SinkFileFirst" (the sink drains its file port to the end before its parameter port), "SeqDrain" (abandoned
+                   \* in-ports drained one after the other), "CombSendSeq" (a combinator sends its out-ports one after the other)
 
 Inst == JsonDeserialize("inst.json")
 
@@ -300,8 +302,11 @@ StartProcs == /\ phase = "init"
                              sout, cl, tokens, final, failed, execs, emitted, recvd, strm, cb>>
 
 (************************ emitters: sources, param sources, feeders *******)
+SubsBefore(e) == {x \in SubsOf(SubOwnerTab[e]) : \E i, j \in DOMAIN CombNames(SubOwnerTab[e]) :
+                     i < j /\ SubId(SubOwnerTab[e], CombNames(SubOwnerTab[e])[i]) = x /\ SubId(SubOwnerTab[e], CombNames(SubOwnerTab[e])[j]) = e}
 EmSendBegin(e, r) ==
   /\ Active(e) /\ em[e].st = "run" /\ em[e].wait = "" /\ em[e].i <= Len(EmItems(e))
+  /\ ("CombSendSeq" \in Weak /\ e \in SubIds) => \A x \in SubsBefore(e) : em[x].st = "done"
   /\ r \in em[e].left /\ CanSend(r)
   /\ LET item == EmItems(e)[em[e].i]
          left == em[e].left \ {r}
@@ -536,6 +541,7 @@ FifoSendDone(n, op, r) ==     \* acceptor mode only
 CTDrain(n, port, i) ==
   /\ Running /\ ctpc[n] \in {"end", "closed"} /\ "NoDrain" \notin Weak
   /\ port \in InPortsOf(n) \cup ParamPortsOf(n) /\ Receivable(port, i)
+  /\ "SeqDrain" \in Weak => port = CHOOSE p \in {x \in InPortsOf(n) \cup ParamPortsOf(n) : ~PortClosed(x)} : TRUE
   /\ q' = [q EXCEPT ![port] = DropAt(@, i)]
   /\ recvd' = [recvd EXCEPT ![port] = Append(@, q[port][i])]
   /\ UNCHANGED <<phase, ups, em, relayed, rpc, ctpc, ctleft, ctgot, ctopen, offer, tasksnil, tk, ts, started, sout, cl,
@@ -683,6 +689,7 @@ SinkRuns  == "SinkOnlyIfDriver" \notin Weak \/ Driver = "SINK"   \* fix F1: the 
 
 SinkRecv(port, i) ==
   /\ Running /\ SinkRuns /\ port \in SinkPorts /\ Receivable(port, i)
+  /\ ("SinkFileFirst" \in Weak /\ port = PSinkIn /\ SinkIn \in SinkPorts) => PortClosed(SinkIn)
   /\ q' = [q EXCEPT ![port] = DropAt(@, i)]
   /\ recvd' = [recvd EXCEPT ![port] = Append(@, q[port][i])]
   /\ UNCHANGED <<phase, ups, em, relayed, rpc, ctpc, ctleft, ctgot, ctopen, offer, tasksnil, tk, ts, started, sout, cl,
